@@ -13,13 +13,16 @@ def plan(ctx):
         obs.append(Obligation(f"engine_calls.{fn}", "xh", "c05", "engine_calls", param={"fn": fn}, timeout=T * 4,
                               bounds="flag string: every subset of {i,m,s,x} in lower or upper case, or None, or omitted (symbolic); the stubbed engine reports 0..4 matches (symbolic); clock readings are arbitrary non-decreasing instants (symbolic increments 0..10 s); every re/regex module and precompiled pattern reachable from functions.py is stubbed; the primary engine may reject the pattern (symbolic)",
                               desc=f"{fn}: every entry into a regular-expression engine carries timeout in [0, 0.1]; at most 2 engine calls per builtin call"))
+    obs.append(Obligation("failing_call_repeated", "xh", "c05", "failing_call_repeated", timeout=T * 2,
+                          bounds="each of the three builtins; failure by engine refusal / engine timeout / non-string subject; the same call three times (finite domain)",
+                          desc="module-level state of functions.py (constants, counters, semaphores, caches) after the third identical failing call equals the state after the second: nothing drifts per failure"))
     obs.append(Obligation("call_sequence", "xh", "c05", "call_sequence", timeout=T * 4,
                           bounds="4 consecutive calls: one builtin twice (both refused by the engine, or neither), then any two builtins, the first of them refused or not (all symbolic)",
                           desc="every engine entry of every call carries a timeout in [0, 0.1], also after earlier calls failed inside the engine"))
     for fn in ('match', 'match_groups', 'match_all'):
         if fn in FUNCTIONS:
             obs.append(Obligation(f"python_steps.{fn}", "xh", "c05", "python_steps", param={"fn": fn}, timeout=T * 4,
-                                  bounds="pattern length from {0, 50, 65535, 65537, 100000}, subject length 0 or 100000 (indices symbolic); one or two consecutive calls; engine stubbed (one match)",
+                                  bounds="pattern length from {0, 50, 65535, 65537, 100000}, subject length 0 or 100000 (indices symbolic); one or two consecutive calls; 6 patterns with braces / escapes / groups; the engine (stubbed, one match) may refuse the pattern once with one of 5 realistic messages",
                                   desc=f"{fn}: Python lines executed in functions.py <= 3000 + 4 * (len(pattern) + len(subject)) (counted with sys.monitoring): no unbounded / super-linear Python-level phase around the engine call"))
     return {
         "obligations": obs, "uncovered": uncovered,
